@@ -42,6 +42,46 @@ def open_modes(cls):
     return modes, unknown
 
 
+def open_guarded(cls):
+    """every open_file call of the class is either a `with` item or the value of an assignment  h = open_file(...)  whose
+    next statement (docstrings / pass aside) is  try: ... finally: h.close()  - nothing that can raise in between"""
+    problems = []
+    calls = [n for n in ast.walk(cls) if isinstance(n, ast.Call) and
+             ((isinstance(n.func, ast.Attribute) and n.func.attr == "open_file") or
+              (isinstance(n.func, ast.Name) and n.func.id == "open_file"))]
+    ok_calls = set()
+    for n in ast.walk(cls):
+        if isinstance(n, (ast.With, ast.AsyncWith)):
+            for it in n.items:
+                if it.context_expr in calls:
+                    ok_calls.add(id(it.context_expr))
+        for field in ("body", "orelse", "finalbody"):
+            body = getattr(n, field, None)
+            if not isinstance(body, list):
+                continue
+            for i, st in enumerate(body):
+                if isinstance(st, ast.Assign) and st.value in calls and len(st.targets) == 1 and isinstance(st.targets[0], ast.Name):
+                    h = st.targets[0].id
+                    j = i + 1
+                    while j < len(body) and (isinstance(body[j], ast.Pass) or
+                                             (isinstance(body[j], ast.Expr) and isinstance(body[j].value, ast.Constant))):
+                        j += 1
+                    nxt = body[j] if j < len(body) else None
+                    closes = isinstance(nxt, ast.Try) and any(
+                        isinstance(c, ast.Call) and isinstance(c.func, ast.Attribute) and c.func.attr == "close"
+                        and isinstance(c.func.value, ast.Name) and c.func.value.id == h
+                        for f in nxt.finalbody for c in ast.walk(f))
+                    if closes:
+                        ok_calls.add(id(st.value))
+                    else:
+                        problems.append("line %d: %s = open_file(...) is not immediately followed by try/finally: %s.close()"
+                                        % (st.lineno, h, h))
+    for c in calls:
+        if id(c) not in ok_calls and not any(("line %d:" % c.lineno) in p for p in problems):
+            problems.append("line %d: open_file(...) result is neither a with-item nor assigned to a guarded name" % c.lineno)
+    return (not problems and bool(calls)), problems
+
+
 def self_writes(cls):
     names, unknown = set(), []
 
@@ -96,7 +136,8 @@ def main():
     lm, u2 = open_modes(l)
     sw, u3 = self_writes(sl)
     aw, u4 = self_writes(amc)
-    print(json.dumps({"writer_modes": wm, "loader_modes": lm, "segmentlist_writes": sw, "arraymorph_writes": aw,
+    guarded, gp = open_guarded(w)
+    print(json.dumps({"writer_open_guarded": guarded, "writer_open_problems": gp, "writer_modes": wm, "loader_modes": lm, "segmentlist_writes": sw, "arraymorph_writes": aw,
                       "unknown": u1 + u2 + u3 + u4}))
 
 
